@@ -6,6 +6,7 @@ import (
 	"bytes"
 	"context"
 	"encoding/json"
+	"errors"
 	"fmt"
 	"os"
 	"os/user"
@@ -297,9 +298,18 @@ func checkPre(t ev.T, test string, c PreCase) {
 	}
 	var ctx context.Context
 	var cancel context.CancelFunc
-	if c.How == "deadline" {
+	switch c.How {
+	case "deadline":
 		ctx, cancel = context.WithDeadline(context.Background(), time.Now().Add(-time.Second))
-	} else {
+	case "deadline-with-cause":
+		// (a context that carries a cause of its own is still a context that timed out)
+		ctx, cancel = context.WithDeadlineCause(context.Background(), time.Now().Add(-time.Second), errors.New("the caller's own reason"))
+	case "cancelled-with-cause":
+		var cc context.CancelCauseFunc
+		ctx, cc = context.WithCancelCause(context.Background())
+		cc(errors.New("the caller's own reason"))
+		cancel = func() {}
+	default:
 		ctx, cancel = context.WithCancel(context.Background())
 		cancel()
 	}
@@ -309,7 +319,7 @@ func checkPre(t ev.T, test string, c PreCase) {
 	var err error
 	ev.Guard(t, prop, test, c, func() { err = ep.call(ctx, e.box.FS, e) })
 	want := commonerrors.ErrCancelled
-	if c.How == "deadline" {
+	if strings.HasPrefix(c.How, "deadline") {
 		want = commonerrors.ErrTimeout
 	}
 	if !commonerrors.Any(err, want) {
@@ -342,7 +352,7 @@ func genShape(t *rapid.T) Shape {
 func TestAlreadyDone(t *testing.T) {
 	rapid.Check(t, func(rt *rapid.T) {
 		c := PreCase{Backend: rapid.SampledFrom([]string{"mem", "mem", "os"}).Draw(rt, "backend"), Entry: entries[rapid.IntRange(0, len(entries)-1).Draw(rt, "entry")].name,
-			How: rapid.SampledFrom([]string{"cancelled", "deadline"}).Draw(rt, "how"), Shape: Shape{Dirs: rapid.IntRange(1, 4).Draw(rt, "dirs"), Files: rapid.IntRange(1, 4).Draw(rt, "files"), BigKB: 64}}
+			How: rapid.SampledFrom([]string{"cancelled", "deadline", "cancelled-with-cause", "deadline-with-cause"}).Draw(rt, "how"), Shape: Shape{Dirs: rapid.IntRange(1, 4).Draw(rt, "dirs"), Files: rapid.IntRange(1, 4).Draw(rt, "files"), BigKB: 64}}
 		c.Src = rapid.SampledFrom([]string{"", "", "link", "file", "emptydir", "missing"}).Draw(rt, "source-is")
 		if (c.Src == "link" && c.Backend != "os") || (c.Src == "missing" && c.Entry == "LsRecursiveFromOpenedDirectory") {
 			c.Src = ""
@@ -357,7 +367,7 @@ func TestAlreadyDone(t *testing.T) {
 func TestAlreadyDoneAll(t *testing.T) {
 	var n int64
 	for _, ep := range entries {
-		for _, how := range []string{"cancelled", "deadline"} {
+		for _, how := range []string{"cancelled", "deadline", "cancelled-with-cause", "deadline-with-cause"} {
 			for _, b := range []string{"mem", "os"} {
 				for _, src := range []string{"", "link", "file", "emptydir", "missing"} {
 					if src == "link" && b != "os" {
